@@ -194,6 +194,15 @@ fn probes() -> Vec<Probe> {
         (ix(w.pid, a::CreateVirtualInventoryForPositions { authority: by, store: w.store, index_token: w.a, virtual_inventory: vi, system_program: sys() }, i::CreateVirtualInventoryForPositions {}), vec![by])
     });
     p!("set_feed_config_market_status_flag", Role("MARKET_KEEPER"), |w, _db, by| (ix(w.pid, a::SetFeedConfigMarketStatusFlag { authority: by, store: w.store, token_map: w.token_map, token: w.a }, i::SetFeedConfigMarketStatusFlag { provider: 0, flag: 0, enable: true }), vec![by]));
+    p!("order:close_empty_claimable_account", Role("ORDER_KEEPER"), |w, db, by| {
+        // a claimable account of the current window, created (empty) by the keeper beforehand
+        let account = w.use_claimable(db, w.b, w.user2, 1_000, w.keeper).expect("use_claimable");
+        (ix(w.pid, a::CloseEmptyClaimableAccount { authority: by, store: w.store, mint: w.b, owner: w.user2, account, system_program: sys(), token_program: spl_token::ID }, i::CloseEmptyClaimableAccount { timestamp: 1_000 }), vec![by])
+    });
+    p!("gt_mint_gt_reward", Role("GT_CONTROLLER"), |w, db, by| {
+        let _ = w.prepare_user(db, w.user);
+        (ix(w.pid, a::MintGtReward { authority: by, store: w.store, user: w.user_pda(&w.user), event_authority: w.event_authority, program: w.pid }, i::MintGtReward { amount: 5 }), vec![by])
+    });
     // ---- GLV management (world: a GLV over both markets)
     p!("glv:initialize_glv", Role("MARKET_KEEPER"), |w, _db, by| (crate::glvchk::initialize_glv_ix(w, 5, &[&w.m1, &w.m2], by), vec![by]));
     p!("glv:update_glv_market_config", Role("MARKET_KEEPER"), |w, _db, by| (ix(w.pid, a::UpdateGlvMarketConfig { authority: by, store: w.store, glv: crate::glvchk::glv_keys(w, 0).0, market_token: w.m1.market_token }, i::UpdateGlvMarketConfig { max_amount: Some(5), max_value: None }), vec![by]));
